@@ -26,7 +26,8 @@ from .C11_oracle import ORACLE, DRIVER, MODULE
 
 TITLE = "engine caches are reset before every check; all mutated global state is numbering / definition store / engine / scoped; HUGR identical across session histories (bounded)"
 EN = "guppylang_internals.engine"
-NCH = 11
+NCH = 13
+BOUNDARIES = {"quick": [10, 100], "thorough": [10, 100, 1000]}
 
 # classification of mutated module/class-level state (name -> (kind, justification))
 ALLOWED = {
@@ -46,6 +47,8 @@ MUT_METHODS = {"append", "extend", "add", "update", "pop", "popitem", "clear", "
 def run(chk):
     chk.section("engine", lambda: engine_section(chk))
     chk.section("global-state", lambda: scan_section(chk))
+    chk.section("block-row-order", lambda: row_order_section(chk))
+    chk.section("comptime-user-data", lambda: comptime_data_section(chk))
     for i in range(NCH):
         chk.section(f"bounded-{i}", lambda i=i: bounded(chk, i))
     chk.expected_min_obligations = 15
@@ -96,6 +99,47 @@ def engine_section(chk):
                                          and len({id(p.value[0].fields[a]) for a in p.value[1]}) == len(p.value[1])),
                     func=f"{EN}:CompilationEngine.reset", replay=lambda m_: {"script": REPLAY_RESET, "input": {}})
 
+    # additional_extensions is the one attribute reset() keeps: it is session CONFIGURATION (extensions the
+    # user registers), so the compiler itself must never write it — otherwise what was compiled earlier
+    # leaks into every later package.  (a) inside the class only __init__ and register_extension touch
+    # it; (b) nothing in the two packages calls register_extension or mutates the list.
+    writers = set()
+    for fn in cls.body:
+        if not isinstance(fn, ast.FunctionDef):
+            continue
+        for n in ast.walk(fn):
+            tgt = []
+            if isinstance(n, (ast.Assign, ast.AugAssign, ast.AnnAssign)):
+                ts = n.targets if isinstance(n, ast.Assign) else [n.target]
+                tgt = [t.value if isinstance(t, ast.Subscript) else t for t in ts]
+            if isinstance(n, ast.Call) and isinstance(n.func, ast.Attribute) and n.func.attr in MUT_METHODS:
+                tgt = [n.func.value]
+            if any(isinstance(b, ast.Attribute) and b.attr == "additional_extensions" for b in tgt):
+                writers.add(fn.name)
+    chk.record("CompilationEngine.additional_extensions:written-only-by-__init__-and-register_extension", writers == {"__init__", "register_extension"}, str(sorted(writers)),
+               func=f"{EN}:CompilationEngine.register_extension", backend="structural")
+    callers = []
+    for root in (os.path.join(chk.repo, "guppylang-internals/src/guppylang_internals"), os.path.join(chk.repo, "guppylang/src/guppylang")):
+        for dp, dn, fns in os.walk(root):
+            for f in fns:
+                if not f.endswith(".py"):
+                    continue
+                pth = os.path.join(dp, f)
+                try:
+                    tree = ast.parse(open(pth).read())
+                except SyntaxError:
+                    continue
+                for n in ast.walk(tree):
+                    hit = isinstance(n, ast.Attribute) and n.attr in ("register_extension", "additional_extensions")
+                    if hit and not (pth.endswith("guppylang_internals/engine.py") and isinstance(n.value, ast.Name) and n.value.id == "self"):
+                        callers.append(f"{os.path.relpath(pth, chk.repo)}:{n.lineno}")
+    o = chk.record("ENGINE.additional_extensions:no-checker-or-compiler-code-registers-extensions-or-writes-the-list(session configuration only)", not callers, ", ".join(callers[:6]),
+                   func=f"{EN}:CompilationEngine.register_extension", backend="site-scanner")
+    if callers:
+        from pyvc.report import run_replay
+        res = run_replay(REPLAY_EXT, {}, chk.repo, timeout=600)
+        o.replay = {"confirmed": bool(res.get("violates")), "script": REPLAY_EXT, "input": {}, "native": res}
+
     def first_stmt(fname):
         fn = [f for f in cls.body if isinstance(f, ast.FunctionDef) and f.name == fname][0]
         body = [s for s in fn.body if not (isinstance(s, ast.Expr) and isinstance(s.value, ast.Constant)) and not isinstance(s, (ast.Import, ast.ImportFrom))]
@@ -126,6 +170,37 @@ def engine_section(chk):
                     func=f"{EN}:CompilationEngine.check", replay=lambda m_: {"script": REPLAY_RESET, "input": {}})
     chk.use_engine(e)
 
+
+REPLAY_EXT = r'''
+import guppylang
+guppylang.enable_experimental_features()
+from guppylang import guppy
+from guppylang.std.quantum import qubit, h
+control = object()
+import tempfile, importlib.util, os, sys, shutil
+src = """from guppylang import guppy
+from guppylang.std.quantum import qubit, h
+control = object()
+@guppy
+def plain(x: int) -> int:
+    return x + 1
+@guppy
+def modified(q: qubit, c: qubit) -> None:
+    with control(c):
+        h(q)
+"""
+d = tempfile.mkdtemp(dir=os.environ.get("TMPDIR", "/var/tmp")); fn = os.path.join(d, "replay_c11e.py"); open(fn, "w").write(src)
+spec = importlib.util.spec_from_file_location("replay_c11e", fn); m = importlib.util.module_from_spec(spec); sys.modules["replay_c11e"] = m
+spec.loader.exec_module(m)
+from guppylang_internals.engine import ENGINE
+before = sorted(e.name for e in m.plain.compile_function().extensions)
+cfg_before = [e.name for e in ENGINE.additional_extensions]
+m.modified.compile_function()
+after = sorted(e.name for e in m.plain.compile_function().extensions)
+cfg_after = [e.name for e in ENGINE.additional_extensions]
+shutil.rmtree(d, ignore_errors=True)
+print(json.dumps({"violates": before != after or cfg_before != cfg_after, "observed": {"extensions of `plain` before": before, "after compiling `modified`": after, "registered": cfg_after}, "required": "the same package extensions before and after"}))
+'''
 
 REPLAY_RESET = r'''
 from guppylang_internals.engine import CompilationEngine
@@ -262,14 +337,117 @@ def scan_section(chk):
                func="guppylang_internals.tracing.state:set_tracing_state")
 
 
+REPLAY_ROWORDER = r'''
+from guppylang_internals.compiler.cfg_compiler import sort_vars
+from guppylang_internals.checker.core import Variable
+from guppylang_internals.tys.builtin import int_type
+import guppylang.std.quantum as Q
+from guppylang_internals.engine import ENGINE
+I = INPUT
+q_ty = ENGINE.get_checked(Q.qubit.id).check_instantiate([])
+assert not q_ty.droppable
+def V(name, lin=False): return Variable(name, q_ty if lin else int_type(), None)
+nums = I["numbers"]; shifts = I["shifts"]
+bad = None; n = 0
+def shape(row, k):
+    # the permutation applied by sort_vars, with generated names written as their offset from the shift
+    import re
+    return [re.sub(r"%tmp(\d+)", lambda m: "%tmp+" + str(int(m[1]) - k), str(v)) for v in sort_vars(row)]
+for a in nums:
+    for b in nums:
+        if a >= b: continue
+        for lin_a in (False, True):
+            row0 = lambda k: [V(f"%tmp{b + k}"), V("zeta"), V(f"%tmp{a + k}", lin_a), V("alpha"), V("%ret0"), V(f"%tmp{b + k + 1}")]
+            base = shape(row0(0), 0)
+            for k in shifts:
+                n += 1
+                got = shape(row0(k), k)
+                if got != base and bad is None:
+                    bad = {"a": a, "b": b, "shift": k, "detail": f"row with temporaries %tmp{a}, %tmp{b}, %tmp{b+1} is ordered {base}; the same row with every number shifted by {k} is ordered {got}"}
+print(json.dumps({"violates": bad is not None, "evaluations": n, "witness": bad, "detail": bad and bad["detail"]}))
+'''
+
+
+def row_order_section(chk):
+    """The order of a basic block's row (sort_vars / compare_var, compiler/cfg_compiler.py) decides the
+    port numbers of the block.  Generated temporaries are numbered by a session-wide counter, so the
+    order must be invariant under shifting all their numbers by the same amount (the only thing earlier
+    checks can do to them).  BOUNDED: numbers and shifts around the digit boundaries are enumerated on
+    the real function; the regular expression in the key is outside the symbolic executor."""
+    from pyvc.report import run_replay
+    inp = {"numbers": [0, 1, 2, 7, 8, 9, 10, 11, 19, 20, 98, 99, 100, 101, 998, 999, 1000, 1001], "shifts": [1, 2, 3, 8, 9, 10, 11, 89, 90, 91, 99, 100, 900, 901, 999, 1000, 8999, 9001]}
+    res = run_replay(REPLAY_ROWORDER, inp, chk.repo, timeout=600)
+    if "evaluations" not in res:
+        chk.undecided("bounded:sort_vars-shift-invariance", "oracle run failed: " + json.dumps(res)[:600])
+        return
+    o = chk.bounded_result("bounded:sort_vars(row)-is-invariant-under-shifting-the-numbers-of-generated-temporaries(18 numbers x 18 shifts around the digit boundaries, droppable and linear)",
+                           not res.get("violates"), res["evaluations"], detail=res.get("detail") or f"{res['evaluations']} shifted rows ordered like the unshifted row",
+                           witness=res.get("witness"), func="guppylang_internals.compiler.cfg_compiler:compare_var")
+    if res.get("witness"):
+        o.replay.update({"script": REPLAY_ROWORDER, "input": inp})
+
+
+REPLAY_USERDATA = r'''
+import tempfile, importlib.util, os, sys, shutil
+src = """from guppylang import guppy
+from guppylang.std.builtins import array, owned
+xs = [1, 2, 3]
+ys = [4, 5, 6]
+@guppy
+def touch(a: array[int, 3]) -> None:
+    pass
+@guppy
+def take(a: array[int, 3] @owned) -> None:
+    pass
+@guppy.comptime
+def borrows() -> None:
+    touch(xs)
+@guppy.comptime
+def moves() -> None:
+    take(ys)
+"""
+d = tempfile.mkdtemp(dir=os.environ.get("TMPDIR", "/var/tmp")); fn = os.path.join(d, "replay_c11u.py"); open(fn, "w").write(src)
+spec = importlib.util.spec_from_file_location("replay_c11u", fn); m = importlib.util.module_from_spec(spec); sys.modules["replay_c11u"] = m
+spec.loader.exec_module(m)
+which = INPUT["which"]
+f, data, want = (m.borrows, m.xs, [1, 2, 3]) if which == "borrowed" else (m.moves, m.ys, [4, 5, 6])
+def go():
+    try:
+        return "hugr:" + str(len(f.compile_function().modules[0]))
+    except BaseException as e:
+        return "raised " + type(e).__name__
+first = go(); data_after = [v if isinstance(v, int) else type(v).__name__ for v in data]; second = go()
+shutil.rmtree(d, ignore_errors=True)
+print(json.dumps({"violates": first != second or data_after != want, "evaluations": 2, "observed": {"first compile": first, "the user's list afterwards": data_after, "second compile": second},
+                  "required": "both compiles give the same outcome and the module-level list still holds " + str(want),
+                  "detail": f"first compile {first}, list afterwards {data_after}, second compile {second}"}))
+'''
+
+
+def comptime_data_section(chk):
+    """BOUNDED: a comptime function reading a module-level Python list, compiled twice (the list is user
+    data that outlives the compile; tracing must not leave objects of one compile in it)."""
+    from pyvc.report import run_replay
+    for which in ("borrowed", "owned"):
+        res = run_replay(REPLAY_USERDATA, {"which": which}, chk.repo, timeout=600)
+        if "evaluations" not in res:
+            chk.undecided(f"bounded:comptime-global-list[{which}]", "oracle run failed: " + json.dumps(res)[:600])
+            continue
+        o = chk.bounded_result(f"bounded:comptime-global-list[passed-to-a-function-taking-the-array-{which}]:compiled-twice=>same-outcome/\\list-untouched",
+                               not res.get("violates"), res["evaluations"], detail=res.get("detail"), witness=res.get("observed") if res.get("violates") else None,
+                               func="guppylang_internals.tracing.unpacking:update_packed_value")
+        if res.get("violates"):
+            o.replay.update({"script": REPLAY_USERDATA, "input": {"which": which}})
+
+
 def bounded(chk, i):
     from pyvc.report import run_replay
-    res = run_replay(ORACLE + DRIVER, {"module": MODULE, "oracle": ORACLE, "chunk": i, "nchunks": NCH}, chk.repo, timeout=6000)
+    res = run_replay(ORACLE + DRIVER, {"module": MODULE, "oracle": ORACLE, "chunk": i, "nchunks": NCH, "boundaries": BOUNDARIES[chk.tier]}, chk.repo, timeout=6000)
     if "evaluations" not in res:
         chk.undecided(f"bounded[{i}/{NCH}]:histories", "oracle run failed: " + json.dumps(res)[:600])
         return
     w = res.get("witness")
-    o = chk.bounded_result(f"bounded[{i}/{NCH}]:HUGR-after-history==HUGR-in-a-fresh-process(target {i}; 9 histories + repeated failing checks)", not res.get("violates"), res["evaluations"],
+    o = chk.bounded_result(f"bounded[{i}/{NCH}]:HUGR-after-history==HUGR-in-a-fresh-process(target {i}; 13 histories, the generated-name counter placed at every position around its digit boundaries, repeated failing checks)", not res.get("violates"), res["evaluations"],
                            detail=res.get("detail") or f"{res['evaluations']} (target, history) pairs compared", witness=w, func=f"{EN}:CompilationEngine.compile")
     if w:
-        o.replay.update({"script": ORACLE + DRIVER, "input": {"module": MODULE, "oracle": ORACLE, "chunk": i, "nchunks": NCH}})
+        o.replay.update({"script": ORACLE + DRIVER, "input": {"module": MODULE, "oracle": ORACLE, "chunk": i, "nchunks": NCH, "boundaries": BOUNDARIES[chk.tier]}})
